@@ -311,6 +311,7 @@ func runC13(p *Program, r *Report) {
 			r.Violate("C13.fwd", "ToLAB extractable", p.FnPos(toLab), err.Error())
 		}
 		cn, wn := toLab.Params[0].Name(), toLab.Params[1].Name()
+		outs = whiteDomain(outs, wn)
 		axes := []string{"X", "Y", "Z"}
 		ratio := map[string]*Form{}
 		for _, ax := range axes {
@@ -408,6 +409,7 @@ func runC13(p *Program, r *Report) {
 			r.Violate("C13.inv", "ColorFromLAB extractable", p.FnPos(fromLab), err.Error())
 		}
 		ln, wn := fromLab.Params[0].Name(), fromLab.Params[1].Name()
+		outs = whiteDomain(outs, wn)
 		Lf, Af, Bf := formAtom(ln+".L"), formAtom(ln+".A"), formAtom(ln+".B")
 		fy := Lf.Add(formInt(16)).Div(formInt(116))
 		fOf := map[string]*Form{"X": Af.Div(formInt(500)).Add(fy), "Y": fy, "Z": fy.Sub(Bf.Div(formInt(200)))}
@@ -565,3 +567,76 @@ func formNear(a, b *Form, tol *big.Rat) bool {
 }
 
 var _ = strings.Contains
+
+// whiteDomain filters the explored paths by the statement's domain — the reference
+// white has positive components: a path taken only when the white (or one of its
+// components) is zero is dropped, and the complementary condition is vacuous.
+func whiteDomain(outs []Outcome, wn string) []Outcome {
+	isZeroTest := func(c *BoolVal) (zero, nonzero bool) {
+		if c == nil || (c.Op != "==" && c.Op != "!=") {
+			return
+		}
+		allZero := func(v Val) bool {
+			switch x := v.(type) {
+			case *Form:
+				z, isC := x.Const()
+				return isC && z.Sign() == 0
+			case *Agg:
+				for _, el := range x.Elems {
+					f, ok := el.(*Form)
+					if !ok {
+						return false
+					}
+					if z, isC := f.Const(); !isC || z.Sign() != 0 {
+						return false
+					}
+				}
+				return len(x.Elems) > 0
+			}
+			return false
+		}
+		ofWhite := func(v Val) bool {
+			switch x := v.(type) {
+			case *Form:
+				n, ok := x.SingleAtom()
+				return ok && (n == wn+".X" || n == wn+".Y" || n == wn+".Z") && x.Equal(formAtom(n))
+			case *Agg:
+				if len(x.Elems) != 3 {
+					return false
+				}
+				for i, ax := range []string{"X", "Y", "Z"} {
+					f, ok := x.Elems[i].(*Form)
+					if !ok || !f.Equal(formAtom(wn+"."+ax)) {
+						return false
+					}
+				}
+				return true
+			}
+			return false
+		}
+		if (ofWhite(c.A) && allZero(c.B)) || (ofWhite(c.B) && allZero(c.A)) {
+			return c.Op == "==", c.Op == "!="
+		}
+		return
+	}
+	var keep []Outcome
+	for _, o := range outs {
+		drop := false
+		var conds []*BoolVal
+		for _, c := range o.St.conds {
+			z, nz := isZeroTest(c)
+			if z {
+				drop = true
+			}
+			if !nz && !z {
+				conds = append(conds, c)
+			}
+		}
+		if drop {
+			continue
+		}
+		o.St.conds = conds
+		keep = append(keep, o)
+	}
+	return keep
+}
